@@ -24,7 +24,8 @@ if [ "$what" = all ]; then
   groups=$(ls Extract | sed -n 's/^Ex_\(.*\)\.v$/\1/p')
   kflag=-k
 else
-  targets="Props/$what.vo"
+  targets=""
+  for w in ${what//,/ }; do targets="$targets Props/$w.vo"; done   # "C01,X01_bij": several property files
   for g in $groups; do targets="$targets Extract/Ex_$g.vo"; done
   kflag=
 fi
